@@ -36,6 +36,7 @@ static int ref_cmp(int pt, const val_t* a, const val_t* b) {
     case PT_INT64: { int64_t x, y; memcpy(&x, a->b, 8); memcpy(&y, b->b, 8); return (x > y) - (x < y); }
     case PT_FLOAT: { float x, y; memcpy(&x, a->b, 4); memcpy(&y, b->b, 4); return (x > y) - (x < y); }
     case PT_DOUBLE: { double x, y; memcpy(&x, a->b, 8); memcpy(&y, b->b, 8); return (x > y) - (x < y); }
+    case PT_INT96: { for (int w = 2; w >= 0; w--) { uint32_t x, y; memcpy(&x, a->b + 4 * w, 4); memcpy(&y, b->b + 4 * w, 4); if (x != y) return x > y ? 1 : -1; } return 0; }      /* the order carquet documents for its INT96 statistics: (day, nanoseconds) as three unsigned words, high to low */
     default: { int m = a->n < b->n ? a->n : b->n; int c = memcmp(a->b, b->b, (size_t)m); if (c) return c < 0 ? -1 : 1; return (a->n > b->n) - (a->n < b->n); }
     }
 }
@@ -45,7 +46,8 @@ static int pool_of(int pt, int tlen, val_t* out) {
     case PT_BOOLEAN: out[0].b[0] = 0; out[1].b[0] = 1; out[0].n = out[1].n = 1; return 2;
     case PT_INT32: { static const int32_t P[] = { 0, 1, -1, INT32_MIN, INT32_MAX, 256, 255 }; for (n = 0; n < 7; n++) { memcpy(out[n].b, &P[n], 4); out[n].n = 4; } return 7; }
     case PT_INT64: { static const int64_t P[] = { 0, 1, -1, INT64_MIN, INT64_MAX, 4294967296LL, 255 }; for (n = 0; n < 7; n++) { memcpy(out[n].b, &P[n], 8); out[n].n = 8; } return 7; }
-    case PT_INT96: for (n = 0; n < 4; n++) { out[n].n = 12; out[n].b[n == 0 ? 0 : n == 1 ? 4 : n == 2 ? 8 : 11] = (uint8_t)(n + 1); } return 4;
+    case PT_INT96: for (n = 0; n < 4; n++) { out[n].n = 12; out[n].b[n == 0 ? 0 : n == 1 ? 4 : n == 2 ? 8 : 11] = (uint8_t)(n + 1); }
+        out[4].n = 12; out[4].b[0] = 9; out[5].n = 12; out[5].b[3] = 0x80; out[6].n = 12; out[6].b[4] = 2; out[6].b[0] = 7; return 7;      /* 4, 5: differ from value 0 in the low word only; 6: same middle word as value 1, other low word */
     case PT_FLOAT: { static const uint32_t P[] = { 0x00000000u, 0x80000000u, 0x3f800000u, 0xbf800000u, 0x7f800000u, 0xff800000u, 0x7fc00000u }; for (n = 0; n < 7; n++) { memcpy(out[n].b, &P[n], 4); out[n].n = 4; } return 7; }
     case PT_DOUBLE: { static const uint64_t P[] = { 0, 0x8000000000000000ull, 0x3ff0000000000000ull, 0xbff0000000000000ull, 0x7ff0000000000000ull, 0xfff0000000000000ull, 0x7ff8000000000000ull }; for (n = 0; n < 7; n++) { memcpy(out[n].b, &P[n], 8); out[n].n = 8; } return 7; }
     case PT_FLBA: if (tlen == 8) { static const char* S8[] = { "AB000001", "BA000000", "AB000002", "zzzzzzzz", "\x01\x00\x00\x00\x00\x00\x00\x02" }; for (n = 0; n < 5; n++) { out[n].n = 8; memcpy(out[n].b, S8[n], 8); } return 5; }
@@ -58,7 +60,6 @@ static int pool_of(int pt, int tlen, val_t* out) {
 static void check_bounds(int pt, const val_t* vals, int nv, int64_t nulls, const uint8_t* mn, int mnl, const uint8_t* mx, int mxl, bool has_nc, int64_t nc, const char* ctx, const char* area) {
     char key[160];
     if (has_nc && nc != nulls) { snprintf(key, sizeof key, "%s.null-count", area); mc_fail(key, "%s: null_count %lld, %lld nulls were added", ctx, (long long)nc, (long long)nulls); }
-    if (pt == PT_INT96) return;      /* INT96 has no defined order */
     val_t lo, hi; int all_nan = 1; for (int i = 0; i < nv; i++) if (!is_nan(pt, &vals[i])) all_nan = 0;
     if (mn && mnl > 0) { memset(&lo, 0, sizeof lo); lo.n = mnl; memcpy(lo.b, mn, (size_t)(mnl > 304 ? 304 : mnl));
         if (is_nan(pt, &lo) && !all_nan && nv) { snprintf(key, sizeof key, "%s.min-is-nan", area); mc_fail(key, "%s: min is NaN although non-NaN values were added", ctx); }
@@ -185,7 +186,12 @@ static void stage_pruning(void) {
         }
         ref_write_req rq; memset(&rq, 0, sizeof rq); rq.schema = sc; rq.nschema = ns; rq.nleaves = NLF; rq.nrg = G; rq.rg_rows = rows; rq.cols = colsall; rq.layouts = Lall; ref_buf img; ref_buf_init(&img);
         if (ref_pq_write(&RA, &rq, &img, NULL, 0, NULL)) mc_harness_error("reference writer failed");
-        uint8_t* x = mc_exact(img.p, img.n); carquet_error_t err = CARQUET_ERROR_INIT; carquet_reader_t* rd = carquet_reader_open_buffer(x, img.n, NULL, &err);
+        /* the file is opened from memory, through stdio or mapped, in turn (the stdio path parses the footer from a scratch block it frees: statistics must not point into it) */
+        static unsigned g_open_turn; int omode = (int)(g_open_turn++ % 3); static char g_p16[300]; if (!g_p16[0]) { const char* sd = getenv("VERIF_SCRATCH"); snprintf(g_p16, sizeof g_p16, "%s/c16_%d.parquet", sd ? sd : "/dev/shm", (int)getpid()); }
+        uint8_t* x = mc_exact(img.p, img.n); carquet_error_t err = CARQUET_ERROR_INIT; carquet_reader_t* rd;
+        if (omode == 0) rd = carquet_reader_open_buffer(x, img.n, NULL, &err);
+        else { FILE* pf = fopen(g_p16, "wb"); if (!pf || fwrite(img.p, 1, img.n, pf) != img.n) mc_harness_error("scratch write failed"); fclose(pf); carquet_reader_options_t ro; carquet_reader_options_init(&ro); ro.use_mmap = omode == 2; rd = carquet_reader_open(g_p16, &ro, &err); unlink(g_p16);
+            { void* churn[8]; for (int q = 0; q < 8; q++) { churn[q] = malloc(64 + (size_t)q * 200); if (churn[q]) memset(churn[q], 0xC3, 64 + (size_t)q * 200); } for (int q = 0; q < 8; q++) free(churn[q]); } }      /* recycle freed blocks of footer size */
         if (!rd) { mc_fail("pruning.open-failed", "code %d %s", err.code, err.message); free(x); ref_buf_free(&img); ref_arena_free(&RA); continue; }
         /* probes: every pool value, its neighbours, beyond both extremes, NaN */
         val_t probes[40]; int npr = 0; for (int i = 0; i < 9; i++) { probes[npr++] = pool[i]; val_t a = pool[i]; widen(pt, &a, -1); probes[npr++] = a; a = pool[i]; widen(pt, &a, +1); probes[npr++] = a; }
